@@ -271,12 +271,18 @@ def handle (d : DS) (line : String) : DS × String :=
     | none => (d, "bad-op")
   | _ => (d, "bad-op")
 
+/-- driver only: re-tabulate the heap function in an array (the model's heap is a chain of function updates,
+one closure per write; looking an object up would otherwise cost time proportional to the number of writes so far) -/
+def compact (h : H) : H :=
+  let arr : Array Obj := Array.ofFn (n := h.next) (fun i => h.obj i.val)
+  { next := h.next, obj := fun i => arr.getD i {} }
+
 partial def loop (hIn : IO.FS.Stream) (d : DS) : IO Unit := do
   let line ← hIn.getLine
   if line.isEmpty then return ()
   let (d', out) := handle d (line.trimAscii.toString)
   IO.println out
-  loop hIn d'
+  loop hIn { d' with s := { d'.s with h := compact d'.s.h } }
 
 def main : IO Unit := do loop (← IO.getStdin) {}
 
